@@ -188,6 +188,13 @@ func (t *Target) serve(c *Conn, step *ProbeStep) {
 			n.log(Event{Kind: "resp", Target: t.Name, Conn: c.ID, Status: 200, ReqID: req.Header.Get("X-Request-Id")})
 			return
 		}
+		if req.Header.Get("X-Verif-Mute") != "" {
+			// a target that accepts the request head and then stays silent: it neither reads the body nor answers
+			// (no `100 Continue` either) until the proxy gives the connection up
+			n.log(Event{Kind: "req", Target: t.Name, Conn: c.ID, Method: req.Method, URI: req.RequestURI, Host: req.Host, Header: req.Header, FirstByteAt: first, ReqID: req.Header.Get("X-Request-Id"), Note: "mute"})
+			<-c.Done()
+			return
+		}
 		var body []byte
 		var bodyErr error
 		if strings.EqualFold(req.Header.Get("Expect"), "100-continue") {
